@@ -215,8 +215,7 @@ MONITORED = [
     FMon("quantstr", lambda r, t: "%d" % r.choice([2, 4, 8, 16]), _u, merge=True, query_mutates=True),
     FMon("fistr", lambda r, t: (lambda m: "%d %d" % (m, r.randrange(3, m + 1)))(r.choice([3, 3, 4, 5])), _u, merge=True, universe=(6, 12, 40, 200)),
     FMon("varopt", lambda r, t: "%d" % r.choice([4, 8, 16]), _u, reset=True),
-    FMon("vou", lambda r, t: "%d" % r.choice([4, 8, 16]), lambda r, st: "%d %d" % (r.randrange(500), r.randrange(1, 30)), reset=True,
-         known=("query",)),   # open finding fatal:construct-over-live-object:vou (get_result); generated rarely and last
+    FMon("vou", lambda r, t: "%d" % r.choice([4, 8, 16]), lambda r, st: "%d %d" % (r.randrange(500), r.randrange(1, 30)), reset=True),
     FMon("ebpps", lambda r, t: "%d" % r.choice([3, 6, 12]), _u, merge=True, reset=True),
     FMon("hll", lambda r, t: "%d %d %d" % (r.choice([4, 5, 7, 8]), r.randrange(3), r.randrange(2)), lambda r, st: "%d %d" % (r.randrange(100), r.choice([1, 1, 3, 40, 300])), reset=True),
     FMon("hllu", lambda r, t: "%d" % r.choice([5, 6, 8]), lambda r, st: "%d %d" % (r.randrange(100), r.choice([1, 5, 40, 300])), serde=False, reset=True),
